@@ -537,6 +537,9 @@ pub fn def() -> CheckDef {
             sub("pool_swap_thresholds", 10_000, 300_000, fee_pool_bounds_case, |c: &super::c03::BoundsCase, l: &mut Local| super::c03::check_case(c, l)),
             // two_hop_swap_v2 over fee mints: the threshold is judged on what the trader really receives / pays (realised -1 / 0 / +1),
             // amount bounds, intermediate nets to zero; with a fee-free intermediate mint also equality with the two single swaps
+            // reposition_liquidity_v2 over fee / hook mints: bounds, net movements and the LiquidityRepositioned event (C08's sub-check, run
+            // here over fee mints only for the C16 clauses)
+            sub("reposition_fee_mints", 8_000, 200_000, || super::c08::repo_case().prop_map(|mut c| { if c.hist.spec.mint_kind != 3 { c.hist.spec.mint_kind = 3; c.hist.spec.tf1 = Some((100, u64::MAX)); c.hist.spec.tf2 = Some((250, 5000)); } c }).boxed(), |c: &super::c08::RepoCase, l: &mut Local| super::c08::check_reposition(c, l)),
             sub("two_hop_thresholds", 12_000, 300_000, fee_two_hop_case, |c: &super::c17::TwoHopCase, l: &mut Local| super::c17::check_case(c, l, false)),
         ],
     }
